@@ -1,6 +1,7 @@
 (* Property C09: build modes and optimisation never change the meaning of a check-free program.
    Only the property theorems, each closed by [exact] and followed by Print Assumptions. *)
-From C09 Require Import Model Proofs ProofsFuel.
+From C09 Require Import Model Proofs ProofsFuel ProofsPass.
+From Coq Require Import Permutation.
 Local Open Scope Z_scope.
 
 (* ---- checked helper = unchecked helper whenever the checked one does not stop the program ---- *)
@@ -23,17 +24,42 @@ Theorem C09_unchecked_min_neg1 : forall t, In t signed_types ->
 Proof. exact unchecked_min_neg1. Qed.
 Print Assumptions C09_unchecked_min_neg1.
 
+(* a check that passes leaves the same VALUE in both build modes, in the dialect the base flags select and for
+   operands of the operand type (the `checked = unchecked` statements around it are also satisfied by two
+   undefined executions; this one is not).  [same_value c u] = exists v, c = ORet v /\ u = ORet v. *)
+Theorem C09_checks_pass_same_value :
+  (forall t a b, In t signed_types -> in_ity t a -> in_ity t b ->
+     (idiv_helper base_mode t true a b <> OPanic -> same_value (idiv_helper base_mode t true a b) (idiv_helper base_mode t false a b)) /\
+     (imod_helper base_mode t true a b <> OPanic -> same_value (imod_helper base_mode t true a b) (imod_helper base_mode t false a b))) /\
+  (forall it i len, h_bounds it true i len <> OPanic -> same_value (h_bounds it true i len) (h_bounds it false i len)) /\
+  (forall p, h_deref true p <> OPanic -> same_value (h_deref true p) (h_deref false p)) /\
+  (forall st dt x, h_narrow_int st dt true x <> OPanic -> same_value (h_narrow_int st dt true x) (h_narrow_int st dt false x)) /\
+  (forall c, h_check true c <> OPanic -> same_value (h_check true c) (h_check false c)).
+Proof. exact checks_pass_same. Qed.
+Print Assumptions C09_checks_pass_same_value.
+
+(* float -> integer narrowing is the exception: the helper casts before it tests, so a float outside the target
+   type is undefined in both modes (known finding of C03, replayed there under UBSan) *)
+Theorem C09_narrow_f2i_pass_same_refuted : ~ narrow_f2i_pass_same_full.
+Proof. exact narrow_f2i_pass_same_refuted. Qed.
+Print Assumptions C09_narrow_f2i_pass_same_refuted.
+
+Theorem C09_narrow_f2i_pass_same_partial : forall dt f, c_f2i dt f <> None ->
+  h_narrow_f2i dt true f <> OPanic -> same_value (h_narrow_f2i dt true f) (h_narrow_f2i dt false f).
+Proof. exact narrow_f2i_pass_same_partial. Qed.
+Print Assumptions C09_narrow_f2i_pass_same_partial.
+
 Theorem C09_narrow_checked_eq_unchecked : forall st dt x f,
   (h_narrow_int st dt true x <> OPanic -> h_narrow_int st dt true x = h_narrow_int st dt false x) /\
   (h_narrow_f2i dt true f <> OPanic -> h_narrow_f2i dt true f = h_narrow_f2i dt false f).
-Proof. intros. split; [apply narrow_int_checked_eq|apply narrow_f2i_checked_eq]. Qed.
+Proof. exact (fun st dt x f => conj (narrow_int_checked_eq st dt x) (narrow_f2i_checked_eq dt f)). Qed.
 Print Assumptions C09_narrow_checked_eq_unchecked.
 
 Theorem C09_bounds_deref_check_eq_unchecked : forall it i len p c,
   (h_bounds it true i len <> OPanic -> h_bounds it true i len = h_bounds it false i len) /\
   (h_deref true p <> OPanic -> h_deref true p = h_deref false p) /\
   (h_check true c <> OPanic -> h_check true c = h_check false c).
-Proof. intros. repeat split; [apply bounds_checked_eq|apply deref_checked_eq|apply check_checked_eq]. Qed.
+Proof. exact (fun it i len p c => conj (bounds_checked_eq it i len) (conj (deref_checked_eq p) (check_checked_eq c))). Qed.
 Print Assumptions C09_bounds_deref_check_eq_unchecked.
 
 (* a passing bounds check means the unchecked access is in bounds *)
@@ -67,6 +93,14 @@ Theorem C09_dce_keeps_roots : forall g fuel s, root g s = true -> is_used (S fue
 Proof. exact dce_keeps_roots. Qed.
 Print Assumptions C09_dce_keeps_roots.
 
+(* what is emitted: with pragmas.nodce everything, otherwise exactly what is reachable from a root; the early
+   `return` of visitors.FuncDef is scraped (Gen.funcdef_dce_condition_found), a changed condition breaks this *)
+Theorem C09_emitted_iff_nodce_or_reachable : forall g U s fuel nodce,
+  (forall n, In n U -> forall u, In u (usedby g n) -> In u U) -> In s U -> (length U <= fuel)%nat ->
+  exists b, emitted fuel g nodce s = Some b /\ (b = true <-> nodce = true \/ reach g s).
+Proof. exact emitted_iff_nodce_or_reachable. Qed.
+Print Assumptions C09_emitted_iff_nodce_or_reachable.
+
 (* the initializer of a declared variable is evaluated in every build mode, used or not, whenever there is
    something to evaluate at run time: dead code elimination drops the variable, never its initializer.
    dead_init_emitted is the condition of visitors.VarDecl's branch for eliminated variables as scraped: an
@@ -76,13 +110,44 @@ Theorem C09_unused_initializer_evaluated : forall nodce used i, needs_eval i = t
 Proof. exact init_always_evaluated. Qed.
 Print Assumptions C09_unused_initializer_evaluated.
 
-Theorem C09_dead_initializer_kept_whatever_shape : forall e, dead_init_emitted (info_of e) = true.
-Proof. exact dead_init_any_shape. Qed.
-Print Assumptions C09_dead_initializer_kept_whatever_shape.
+(* tripwire for the scraped condition: it does not consult the analyzer's `sideeffect` attribute *)
+Theorem C09_dead_initializer_kept_whatever_attr : forall se, dead_init_emitted (info_rt se) = true.
+Proof. exact dead_init_any_attr. Qed.
+Print Assumptions C09_dead_initializer_kept_whatever_attr.
 
-Theorem C09_sideeffect_attr_incomplete : exists e, effectful e = true /\ attr_se e = false.
-Proof. exact se_attr_incomplete. Qed.
-Print Assumptions C09_sideeffect_attr_incomplete.
+(* ---- the ORDER of the effects of `local v1, .., vn = e1, .., em` (VarDecl.v) ----
+   full statement: dead code elimination does not change the order in which the initializers run.
+   False today: the initializer of a dropped variable is written to `emitter`, the definitions of the kept
+   ones to `defemitter`, which is appended last.  `local a, b = f(), g()` with b never read runs g first in the
+   default build and f first with -P nodce (corpus/C09/vardecl_order.nelua, known finding). *)
+Theorem C09_vardecl_order_refuted : ~ vardecl_order_dce_full vardecl_policy.
+Proof. exact vardecl_order_refuted. Qed.
+Print Assumptions C09_vardecl_order_refuted.
+
+(* for every placement of the two kinds of statements: the order is independent of dead code elimination
+   exactly when dropped initializers go to defemitter (the proposed repair) *)
+Theorem C09_vardecl_order_iff_policy : forall pol, vardecl_order_dce_full pol <-> p_dead_in_def pol = true.
+Proof. exact vd_dce_iff. Qed.
+Print Assumptions C09_vardecl_order_iff_policy.
+
+(* what does hold today, for every placement and every declaration: no effect is lost or duplicated by either
+   build mode (both orders are permutations of the source order), and a declaration with at most one effectful
+   value runs it in the same place *)
+Theorem C09_vardecl_effects_partial : forall pol l,
+  Permutation (vd_effects pol false l) (vd_effects pol true l) /\
+  ((length (src_effects l) <= 1)%nat -> vd_effects pol false l = vd_effects pol true l).
+Proof.
+  exact (fun pol l => conj (Permutation_trans (vd_effects_perm pol false l) (Permutation_sym (vd_effects_perm pol true l)))
+                           (fun H => eq_trans (vd_effects_single pol false l H) (eq_sym (vd_effects_single pol true l H)))).
+Qed.
+Print Assumptions C09_vardecl_effects_partial.
+
+(* ---- "either supported C compiler": operands of a plain C operator are unsequenced, so the result of
+   x + f() with f assigning x depends on the compiler (known finding; the sequencing model is coq/C01/Order.v,
+   the positive statement for expressions whose functions write nothing is C01_order_preserved_partial) ---- *)
+Theorem C09_compiler_independent_refuted : ~ compiler_independent_full.
+Proof. exact compiler_independent_refuted. Qed.
+Print Assumptions C09_compiler_independent_refuted.
 
 (* ---- configurations (facts about the scraped tables) ---- *)
 Theorem C09_base_flags_always : forall gcc c,
